@@ -136,6 +136,17 @@ def run(ctx):
             continue
         for _ in range(2 if ctx.quick else 6):
             emit(ctx, eng, copy.deepcopy(d), next_opts(), "corpus", {"file": corpus.rel(path)})
+    if not ctx.quick and ctx.shard == 0:
+        from .. import suite
+        data, tail = suite.run_suite()
+        if data is None:
+            res.inconclusive_because("repository test-suite under contracts did not finish: " + str(tail)[-200:])
+        else:
+            res.count("suite_tests", data["tests"])
+            res.count("suite_pprint_judged", data["pprint_judged"])
+            for x in data["layout"]:
+                res.violation("under-repo-tests:" + x["kind"], {"workload": "repo-suite", "test": x["test"], "text": x["text"], "dict": None,
+                                                                 "options": x.get("options")}, x["detail"], None)
     if contracts.EVALS.get("pprint-monitor-error", 0):
         res.inconclusive_because("the pprint monitor itself raised on some outputs")
 
